@@ -732,6 +732,13 @@ func (e *Enc) mapLookup(fr *Frame, x *ssa.Lookup, st *State, reach string) Val {
 	}
 	r := e.havocVal(x.Type(), "maplk")
 	e.wfAssume(st, reach, r)
+	// maps handed to the library are assumed not to hold nil pointers: v, ok := m[k] with ok true gives a non-nil v
+	if x.CommaOk {
+		if _, isP := mt.Elem().Underlying().(*types.Pointer); isP && len(r.L) == 2 {
+			e.assume(imp(reach, imp(r.L[1], not(eq(r.L[0], c64(0))))))
+			e.note("assumed: pointer values stored in maps are non-nil")
+		}
+	}
 	return r
 }
 
